@@ -521,6 +521,56 @@ def replace_all_calls(text, head, repl, cnt):
         cnt.add("R6.all-calls `%s` => `%s`" % (head, repl))
 
 
+def append_call_args(text, head, extra, cnt, norms=()):
+    """R6c (a token made explicit): every call `<head>(args)` gets the extra argument(s) `extra` appended - however the arguments are spelled - and an argument that is exactly
+    one of the `norms` left-hand sides (e.g. `&dbs`) is replaced by its right-hand side (`dbs`); a call that already ends with `extra` is left alone"""
+    ftoks = [t.text for t in lex(head) if t.kind in CODE]
+    xt = [t.text for t in lex(extra) if t.kind in CODE]
+    pos = 0
+    while True:
+        btoks = lex(text)
+        code = [q for q, t in enumerate(btoks) if t.kind in CODE]
+        hit = None
+        for ci in range(len(code) - len(ftoks)):
+            if btoks[code[ci]].start < pos: continue
+            if all(btoks[code[ci + d]].text == ftoks[d] for d in range(len(ftoks))):
+                # not a definition (`fn head(`) and not a method / path continuation (`.head(` is fine, `x::head(` too)
+                if ci > 0 and btoks[code[ci - 1]].text == "fn": continue
+                nx = code[ci + len(ftoks)]
+                if btoks[nx].text == "(":
+                    hit = (nx, match_close(btoks, nx)); break
+        if hit is None:
+            return text
+        op, cl = hit
+        inner = [q for q in range(op + 1, cl) if btoks[q].kind in CODE]
+        # split the arguments at depth 0
+        args, cur, depth = [], [], 0
+        for q in inner:
+            t = btoks[q]
+            if t.kind == "p" and t.text in "([{": depth += 1
+            elif t.kind == "p" and t.text in ")]}": depth -= 1
+            if t.kind == "p" and t.text == "," and depth == 0:
+                args.append(cur); cur = []
+            else:
+                cur.append(q)
+        if cur: args.append(cur)
+        if args and [btoks[q].text for q in args[-1]] == xt:
+            pos = btoks[cl].end; continue
+        new_args = []
+        for a in args:
+            txt = text[btoks[a[0]].start:btoks[a[-1]].end]
+            key = [btoks[q].text for q in a]
+            for (frm, to) in norms:
+                if key == [t.text for t in lex(frm) if t.kind in CODE]:
+                    txt = to; break
+            new_args.append(txt)
+        new_args.append(extra)
+        repl = "(" + ", ".join(new_args) + ")"
+        text = text[:btoks[op].start] + repl + text[btoks[cl].end:]
+        pos = btoks[op].start + len(repl)
+        cnt.add("R6c.call-extra `%s(..)` += `%s`" % (head, extra))
+
+
 def rewrite_call_through(text, fn_name, via, cnt, where):
     """R12b: `fn_name(A)(B)` -> `via(fn_name(A), B)`; at least one site must exist"""
     n_sites = 0
@@ -729,6 +779,7 @@ class Unit:
         self.unit_rewrites = []
         self.unit_method_shims = []
         self.unit_call_repl = []
+        self.unit_call_extra = []
         self.unit_sig_rewrites = []
 
     def _snapshot(self):
@@ -790,6 +841,12 @@ class Unit:
             if d == "unit-replace-calls":
                 m = re.match(r"//@unit-replace-calls\s+`(.*?)`\s*=>\s*`(.*?)`\s*$", ln)
                 self.unit_call_repl.append((m.group(1), m.group(2))); i += 1; continue
+            if d == "unit-call-extra":
+                m = re.match(r"//@unit-call-extra\s+`(.*?)`\s*\+=\s*`(.*?)`((?:\s+norm\s+`.*?`\s*=>\s*`.*?`)*)\s*$", ln)
+                if not m:
+                    raise AnchorLost("%s:%d: bad //@unit-call-extra" % (self.vc_path, i + 1))
+                norms = re.findall(r"norm\s+`(.*?)`\s*=>\s*`(.*?)`", m.group(3) or "")
+                self.unit_call_extra.append((m.group(1), m.group(2), norms)); i += 1; continue
             if d == "unit-sig-rewrite":
                 m = re.match(r"//@unit-sig-rewrite\s+`(.*?)`\s*=>\s*`(.*?)`\s*$", ln)
                 self.unit_sig_rewrites.append((m.group(1), m.group(2))); i += 1; continue
@@ -1015,6 +1072,8 @@ class Unit:
                 if ln.startswith("//@rewrite"):
                     frm, to, expect, _w = _parse_rewrite(ln, self.vc_path, lno - 1)
                     new_expr = apply_literal_rewrite(new_expr, frm, to, expect, self.counts, name_hint(variant))
+            for (hd, extra, norms) in self.unit_call_extra:
+                new_expr = append_call_args(new_expr, hd, extra, self.counts, norms)
             xparams = next((o.split("=", 1)[1] for o in opts if o.startswith("params=")), "")
             xret = next((o.split("=", 1)[1] for o in opts if o.startswith("ret=")), None)
             sig = "fn %s(%s)%s" % (variant, xparams, (" -> (r: %s)" % xret) if xret else "")
@@ -1159,6 +1218,8 @@ class Unit:
             if ln.startswith("//@rewrite"):
                 frm, to, expect, _w = _parse_rewrite(ln, self.vc_path, lno - 1)
                 new_expr = apply_literal_rewrite(new_expr, frm, to, expect, self.counts, name_hint(variant))
+        for (hd, extra, norms) in self.unit_call_extra:
+            new_expr = append_call_args(new_expr, hd, extra, self.counts, norms)
         # R11 in an arm: a closure literal kept verbatim gets a typed head and a contract (`//@closure` + the lines up to the next directive)
         arm_closure_lines = set()
         bi = 0
@@ -1432,6 +1493,8 @@ class Unit:
                     new_body = apply_literal_rewrite(new_body, frm, to, expect, self.counts, path)
             for (hd, rp) in self.unit_call_repl:
                 new_body = replace_all_calls(new_body, hd, rp, self.counts)
+            for (hd, extra, norms) in self.unit_call_extra:
+                new_body = append_call_args(new_body, hd, extra, self.counts, norms)
             for (fnv, via) in call_through:
                 new_body = rewrite_call_through(new_body, fnv, via, self.counts, path)
             for (mth, fnn) in self.unit_method_shims:
